@@ -772,6 +772,9 @@ class Executor:
                 o.fields[attr] = self.coerce(v, sch[attr])
                 return
         if isinstance(obj, SV) and isinstance(obj.ty, TRec) and obj.origin is not None:
+            conv = self.models.record_setattr(self, obj, attr, v)
+            if conv is not NotImplemented:
+                v = conv
             new = obj.ty.update(st, obj.term, attr, v)
             parent_ref, key_term, kind = obj.origin
             parent = st.heap[parent_ref.id]
@@ -927,8 +930,16 @@ class Executor:
     def ev_Lambda(self, node):
         return LambdaV(node, self.frame)
 
+    no_fork = False
+
     def ev_IfExp(self, node):
-        if self.st.decide(self.truth(self.ev(node.test))):
+        t = self.truth(self.ev(node.test))
+        if self.no_fork and not isinstance(t, bool) and not z3.is_true(z3.simplify(t)) and not z3.is_false(z3.simplify(t)):
+            # inside a comprehension element: conditional expression as an if-then-else term
+            a, b = self.ev(node.body), self.ev(node.orelse)
+            ty = type_of_value(self.st, a)
+            return ty.project(self.st, z3.If(t, ty.embed(self.st, a), ty.embed(self.st, b)))
+        if self.st.decide(t):
             return self.ev(node.body)
         return self.ev(node.orelse)
 
@@ -1016,6 +1027,8 @@ class Executor:
             return z3.IntVal(int(v)), TInt
         if isinstance(v, int):
             return z3.IntVal(v), TInt
+        if isinstance(v, float) and (v != v or v in (float("inf"), float("-inf"))):
+            return None
         if isinstance(v, (float, Fraction)):
             return TReal.embed(self.st, float(v)) if isinstance(v, float) else z3.Q(v.numerator, v.denominator), TReal
         if isinstance(v, SV) and v.ty in (TInt, TReal):
@@ -1040,6 +1053,9 @@ class Executor:
         return True
 
     def compare(self, op, a, b, lineno):
+        r = self.models._plug("compare_any", self, op, a, b, lineno)
+        if r is not NotImplemented:
+            return r
         if op == "Is":
             return self.is_same(a, b)
         if op == "IsNot":
